@@ -24,6 +24,18 @@ TRUSTED = [
 ]
 
 BUCKETS = ("scene", "photon", "charge", "pixel", "signal", "image")
+# the pieces of state observed per detector: Charge holds a 2-D array ("charge") AND a particle dataframe ("cframe")
+PIECES = ("scene", "photon", "charge", "cframe", "pixel", "signal", "image")
+# the public ways of filling each container (probes/verif_probes_c02.py: apply_write)
+HOWS = {
+    "scene": ("add_source",),
+    "photon": ("array", "array_2d", "array_3d", "iadd", "iadd_3d", "array_iadd", "add_op"),
+    "charge": ("array", "particles", "dataframe"),
+    "pixel": ("array", "update", "iadd", "array_iadd", "inplace", "add_op"),
+    "signal": ("array", "update", "iadd", "array_iadd", "inplace", "add_op"),
+    "image": ("array", "update", "iadd", "array_iadd", "inplace", "add_op"),
+}
+ADD_HOWS = ("iadd", "iadd_3d", "array_iadd", "inplace", "add_op")      # these add to what the container holds
 BNAME = dict(scene="Scene", photon="Photon", charge="Charge", pixel="Pixel", signal="Signal", image="Image")
 WGROUPS = ("photon_collection", "charge_generation", "charge_collection", "charge_measurement", "readout_electronics")
 HISTORIES = ("fresh", "junk", "other_mode", "failed", "failed_other")
@@ -112,6 +124,26 @@ def gen_times(r, n=None, start=None, incs=None):
     return ts, start
 
 
+def gen_ops(r, b):
+    """The operations of one step on bucket b: [bucket, value, add, how]; a bucket may be filled more than once in a
+    step, charge through a mixture of its three ways in any order, photon either as a 2-D array or as a cube."""
+    if b == "scene":
+        return [[b, 1, True, "add_source"]]
+    if b == "charge":
+        k = r.choices([1, 2, 3], [60, 30, 10])[0]
+        return [[b, r.randrange(1, 30), True, r.choices(HOWS[b], [60, 20, 20])[0]] for _ in range(k)]
+    if b == "photon":
+        hows = ("array_3d", "iadd_3d") if r.random() < 0.3 else ("array", "array_2d", "iadd", "array_iadd", "add_op")
+    else:
+        hows = HOWS[b]
+    ops = []
+    for j in range(r.choices([1, 2], [80, 20])[0]):
+        how = r.choice(hows)
+        add = how in ADD_HOWS or r.random() < ((0.8 if b == "pixel" else 0.4) if j == 0 else 0.7)
+        ops.append([b, r.randrange(1, 30), bool(add), how])
+    return ops
+
+
 def gen_plan(r, n):
     plan = []
     style = r.choice(["dense", "sparse", "pixel_only", "all_each", "none", "first_only"])
@@ -123,12 +155,59 @@ def gen_plan(r, n):
         for b in BUCKETS:
             p = dict(dense=0.7, sparse=0.25, pixel_only=1.0 if b == "pixel" else 0.0, all_each=1.0, first_only=0.8)[style]
             if r.random() < p:
-                add = True if b in ("scene", "charge") else r.random() < (0.8 if b == "pixel" else 0.4)
-                v = 1 if b == "scene" else r.randrange(1, 30)
-                ops.append([b, v, add])
-        r.shuffle(ops)
-        plan.append(ops)
+                ops.append(gen_ops(r, b))
+        r.shuffle(ops)          # the order between buckets; the operations on one bucket keep their order
+        plan.append([op for grp in ops for op in grp])
     return plan
+
+
+def no_cube(c):
+    """The deprecated loop assembles its result from `photon.array` and cannot carry a 3-D photon cube (a limit of
+    that entry's result assembly, not of the bucket lifecycle): its plans use the 2-D forms."""
+    if c.get("entry") == "deprecated_loop":
+        c["plan"] = [[(w[:3] + [{"array_3d": "array", "iadd_3d": "iadd"}.get(w[3], w[3])] if len(w) > 3 else w)
+                      for w in step] for step in c.get("plan", [])]
+    return c
+
+
+def gen_fill_cases(r):
+    """Every container filled through EVERY public way of filling it before a step boundary (and judged empty at the
+    start of the next step), in both readout modes; charge additionally through mixtures of its three ways in both
+    orders and on all detector types."""
+    out = []
+
+    def case(plan_steps, nd, det, k):
+        c = gen_valid_case(r, dict(form="list", n=3, nops=0, nd=nd, history=("fresh", "junk")[k % 2],
+                                   entry=("run_mode", "run_mode", "run_exposure", "deprecated_loop")[k % 4]))
+        c["detector"] = det
+        c["plan"] = plan_steps
+        c["fill"] = True
+        if c["entry"] == "deprecated_loop" and any(w[3] in ("array_3d", "iadd_3d") for st in plan_steps for w in st):
+            c["entry"] = "run_exposure"
+        out.append(c)
+
+    k = 0
+    for b in BUCKETS:
+        for how in HOWS[b]:
+            for nd in (False, True):
+                v = 1 if b == "scene" else r.randrange(2, 30)
+                first = [[b, v, True if (b in ("scene", "charge") or how in ADD_HOWS) else False, how]]
+                if how in ADD_HOWS and b not in ("scene", "charge"):
+                    # on an initialised container, so that the in-place form is the one exercised
+                    base_how = "array_3d" if how == "iadd_3d" else "array"
+                    first = [[b, r.randrange(2, 30), False, base_how]] + first
+                second = [[b, v + 1, first[-1][2], how]] if r.random() < 0.5 else []
+                for det in (DETECTORS if b == "charge" else (DETECTORS[k % len(DETECTORS)],)):
+                    case([first, second, []], nd, det, k)
+                    k += 1
+    mixes = [("array", "particles"), ("particles", "array"), ("dataframe", "particles"), ("array", "dataframe"),
+             ("dataframe", "array"), ("particles", "dataframe", "array"), ("array", "particles", "array")]
+    for mix in mixes:
+        for nd in (False, True):
+            ops = [["charge", r.randrange(2, 30), True, h] for h in mix]
+            case([ops, [ops[0]], ops[::-1]], nd, DETECTORS[k % len(DETECTORS)], k)
+            k += 1
+    return out
 
 
 def numpy_values(expr):
@@ -187,6 +266,7 @@ def gen_valid_case(r, force=None):
             cur_start = ns
     fin_ts, fin_start, _ = intended_final(c)
     c["plan"] = gen_plan(r, len(fin_ts))
+    no_cube(c)
     if force.get("float"):
         if not all(sched_class(*x) is None for x in intended_all(c)):
             return gen_valid_case(r, force)
@@ -370,6 +450,7 @@ def gen_session(r, n_runs=None, keep=None, reuse=None, tamper_p=0.5, n=None, ent
                   detector=first.pop("detector"))
     if entry:
         first["entry"] = entry
+        no_cube(first)
     runs = [first]
     for j in range(1, n_runs):
         prev = dict(runs[-1], pre=runs[:-1])
@@ -401,7 +482,7 @@ def gen_session(r, n_runs=None, keep=None, reuse=None, tamper_p=0.5, n=None, ent
                      start=hx(nstart))
         c["tamper"] = gen_tamper(r, nts, nstart, nnd, tamper_p)
         c["plan"] = gen_plan(r, len(nts))
-        runs.append(c)
+        runs.append(no_cube(c))
     case = dict(runs[-1], pre=runs[:-1], **common)
     if not all(all_exact(dict(runs[j], pre=runs[:j])) and
                all(sched_class(*x) is None for x in intended_all(dict(runs[j], pre=runs[:j])))
@@ -546,6 +627,7 @@ def gen_cases(ctx: Ctx, n_valid: int, mal_reps: int, n_sessions: int = 0, n_obse
         c = gen_valid_case(r, dict(form="list", nops=0, history="fresh"))
         c["ops"] = [[k, a]] if k == "replace_nd" else [[k, hx(fl(c["times"][0]) - 1.0)]]
         cases.append(c)
+    cases += gen_fill_cases(ctx.rng("fill"))
     while len(cases) < n_valid:
         cases.append(gen_valid_case(r))
     cases += gen_malformed_cases(r, mal_reps)
@@ -607,13 +689,15 @@ def coz(v) -> str:
 
 
 def cdet(d) -> str:
-    return "(mkdet " + " ".join(coz(d[b]) for b in BUCKETS) + ")"
+    return "(mkdet " + " ".join(coz(d.get(b)) for b in PIECES) + ")"
 
 
-def cwop(b, v, add) -> str:
+def cwop(b, v, add, how=None) -> str:
     if b == "scene":
         return "(WAdd Scene 1%Z)"
-    if b == "charge" or add:
+    if b == "charge" and how in ("particles", "dataframe"):
+        return f"(WPart {core.cz(int(v))})"
+    if b == "charge" or add or how in ADD_HOWS:
         return f"(WAdd {BNAME[b]} {core.cz(int(v))})"
     return f"(WSet {BNAME[b]} {core.cz(int(v))})"
 
@@ -737,11 +821,17 @@ def classify1(c, o):
             if got != e:
                 return "clock", dict(field=f), f"step {i}: {f} = {got!r}, expected {e!r} (times={fts}, start={fstart})"
         b = ob["begin"]
-        for bk in ("scene", "photon", "charge", "signal", "image"):
-            if b[bk] is not None:
+        for bk in ("scene", "photon", "charge", "cframe", "signal", "image"):
+            if b.get(bk) is not None:
                 kind = "leak_from_history" if (i == 0) else "not_emptied"
-                return "step_start_buckets", dict(bucket=bk, kind=kind, mode="nd" if nd else "destructive"), \
-                    f"step {i}: {bk} holds {b[bk]} at the start of the step (history={full.get('history')})"
+                bucket = "charge" if bk == "cframe" else bk
+                part = {"charge": " (2-D array)", "cframe": " (particle dataframe)"}.get(bk, "")
+                filled = [f"{w[3] if len(w) > 3 and w[3] else 'array'}({w[1]})" for w in
+                          (c.get("plan", [])[i - 1] if 0 < i <= len(c.get("plan", [])) else []) if w[0] == bucket]
+                return "step_start_buckets", dict(bucket=bucket, kind=kind, mode="nd" if nd else "destructive"), \
+                    f"step {i}: {bucket}{part} holds {b[bk]} at the start of the step" + \
+                    (f"; step {i - 1} filled it through {', '.join(filled)}" if filled else "") + \
+                    f" (non_destructive={nd}, history={full.get('history')})"
         exp_px = 0 if (i == 0 or not nd) else prev_end["pixel"]
         if b["pixel"] != exp_px:
             kind = "leak_from_history" if i == 0 else ("pixel_lost" if nd else "pixel_kept")
@@ -816,7 +906,14 @@ def evaluate(ctx: Ctx, cases, tag="c", count=True):
     """Run implementation + Coq on the cases. Returns (mismatching, violating, pairs)."""
     payload = [dict({k: v for k, v in c.items() if k not in ("malformed", "path", "view", "judge_all", "sweep_value")},
                     all_runs=bool(c.get("judge_all"))) for c in cases]
-    obs = core.run_driver(ctx, "c02", payload, workers=8)
+    # run_driver hands contiguous slices to its workers: interleave, so that the expensive kinds of cases (sessions,
+    # observations) are spread over all of them
+    W, n = 8, len(payload)
+    perm = [i for k in range(W) for i in range(k, n, W)]
+    res = core.run_driver(ctx, "c02", [payload[i] for i in perm], workers=W)
+    obs = [None] * n
+    for i, o in zip(perm, res):
+        obs[i] = o
     pairs = []
 
     def add_pair(c, o):
@@ -875,6 +972,13 @@ def evaluate(ctx: Ctx, cases, tag="c", count=True):
                 ctx.dist("observation_sweep", f"{c['sweep']['key']},{c['sweep'].get('mode')},{c['sweep'].get('scheduler', '-')}")
             ctx.dist("detector", c.get("detector", "ccd"))
             ctx.dist("outcome", "ran" if o.get("stage") is None else f"rejected_stage_{o['stage']}")
+            if o.get("stage") is None:
+                nsteps = len(o.get("obs") or [])
+                for i, step in enumerate(eff(c).get("plan", [])[:nsteps]):
+                    for w in step:
+                        # a bucket filled in step i is judged at the start of step i + 1 when there is one
+                        ctx.dist("filled_through" + ("_before_a_step_boundary" if i + 1 < nsteps else "_in_the_last_step"),
+                                 f"{w[0]}.{(w[3] if len(w) > 3 and w[3] else 'legacy_write')}")
     return mism, viol, pairs
 
 
